@@ -43,6 +43,11 @@ type sbuild struct {
 	spy     *rootSpy
 	spies   []*closeSpy
 	depth   int
+	// perCallCtx: the consumer makes every Next with a context of its own (curCtx), which a
+	// cancellingIter may cancel from inside the library's call into the iterator
+	perCallCtx     bool
+	curCtx         *Ctx
+	midcallCancels int
 }
 
 func (b *sbuild) cb() error {
@@ -99,6 +104,9 @@ func (b *sbuild) build(n *pnode, owner string) stream.Stream[int] {
 		return s
 	case "slice":
 		return stream.FromIterator(iterator.Slice(n.items))
+	case "ictx":
+		b.perCallCtx = true
+		return stream.FromIterator(&cancellingIter{b: b, items: n.items, at: n.m})
 	case "counter":
 		return stream.FromIterator(iterator.Counter(n.n))
 	case "repeat":
@@ -189,6 +197,31 @@ func (b *sbuild) build(n *pnode, owner string) stream.Stream[int] {
 		return stream.Merge(kids...)
 	}
 	panic("build: unknown op " + n.op)
+}
+
+// cancellingIter is a plain iterator that, at one position, cancels the context of the consumer's
+// Next call that is in progress (the context expires while the library is inside iter.Next).
+type cancellingIter struct {
+	b     *sbuild
+	items []int
+	pos   int
+	at    int
+	done  bool
+}
+
+func (c *cancellingIter) Next() (int, bool) {
+	if c.pos == c.at && !c.done && c.b.curCtx != nil {
+		c.done = true
+		c.b.r.Fault("ctx_cancel_midcall")
+		c.b.midcallCancels++
+		c.b.curCtx.Cancel()
+	}
+	if c.pos >= len(c.items) {
+		return 0, false
+	}
+	v := c.items[c.pos]
+	c.pos++
+	return v, true
 }
 
 // sepChunks flattens a stream of chunks, emitting sepChunk after each chunk.
@@ -391,7 +424,7 @@ func (b *ibuild) build(n *pnode) iterator.Iterator[int] {
 		c := &countIter{items: n.items}
 		b.byID[n.id] = c
 		return c
-	case "slice":
+	case "slice", "ictx":
 		return iterator.Slice(n.items)
 	case "counter":
 		return iterator.Counter(n.n)
